@@ -228,7 +228,9 @@ def treeLine (st : TState) (e : SExp) : TState × String :=
             | none, none => true
             | _, _ => false) then
           ({ st3 with dead := true }, s!"diff {kind} node {id}: cache is {c.map showObjs}, model {mc.map showObjs}")
-        else if !(st.fuzzy.contains id) && !sameUpToBatchOrder mevs ievs then
+        else if !(st.fuzzy.contains id) && !sameUpToBatchOrder mevs ievs &&
+            -- a filtered leaf whose buffer ran full: which events of a Refilter batch were kept depends on the batch order
+            !(isFsubKind kind && mevs.length == evCap && ievs.length == evCap) then
           ({ st3 with dead := true }, (if kind == "sub" then "reject C05/C10 " else "diff ") ++ s!"{kind} node {id}: events {showEvs ievs}, published {showEvs mevs}")
         else if hasEvents && !stalled && ec != md then
           ({ st3 with dead := true }, s!"reject C11/C12 {kind} node {id}: Events() closed is {ec}, node done is {md}")
